@@ -1,2 +1,175 @@
-import DpapiNg.Model.RpcClient
+/-
+  C18 — endpoint-mapper replies: right port if well-formed, bounded work for any reply.
+-/
 import DpapiNg.Model.Epm
+import DpapiNg.Proofs.PyLemmas
+namespace DpapiNg.C18
+open DpapiNg DpapiNg.Rpc DpapiNg.Epm
+
+/-- `firstTcp` is the port of the first tower that has a TCP floor, and within it the first TCP floor. -/
+theorem firstTcp_spec (before : List (List Floor)) (t : List Floor) (after : List (List Floor)) (p : Nat)
+    (hb : ∀ x ∈ before, towerTcp x = none) (ht : towerTcp t = some p) :
+    firstTcp (before ++ t :: after) = some p := by
+  induction before with
+  | nil => simp only [List.nil_append, firstTcp, ht]
+  | cons x xs ih =>
+    have hx : towerTcp x = none := hb x (by simp)
+    simp only [List.cons_append, firstTcp, hx]
+    exact ih (fun y hy => hb y (by simp [hy]))
+
+theorem firstTcp_none (ts : List (List Floor)) (h : ∀ x ∈ ts, towerTcp x = none) : firstTcp ts = none := by
+  induction ts with
+  | nil => rfl
+  | cons x xs ih =>
+    have hx : towerTcp x = none := h x (by simp)
+    simp only [firstTcp, hx]
+    exact ih (fun y hy => h y (by simp [hy]))
+
+/-- `_process_ept_map_result`: a port is returned exactly when the reply decodes, its status is 0 and some
+    tower has a TCP floor — and then it is `firstTcp`; a non-zero status or no TCP floor is ValueError. -/
+theorem port_is_first_tcp (stub : Bytes) (r : EptMapResult) (h : eptMapResultUnpack stub = .ok r) :
+    (r.status = 0 → ∀ p, firstTcp r.towers = some p → processEptMapResult stub = .ok p) ∧
+    (r.status ≠ 0 → processEptMapResult stub = .error .valueError) ∧
+    (firstTcp r.towers = none → processEptMapResult stub = .error .valueError) := by
+  unfold processEptMapResult
+  simp only [h, bind, Except.bind]
+  refine ⟨?_, ?_, ?_⟩
+  · intro hs p hp; simp [hs, hp, pure, Except.pure]
+  · intro hs; simp [hs, throw, throwThe, MonadExceptOf.throw]
+  · intro hn
+    by_cases hs : r.status = 0
+    · simp [hs, hn, throw, throwThe, MonadExceptOf.throw]
+    · simp [hs, throw, throwThe, MonadExceptOf.throw]
+
+theorem floorsUnpack_suffix (k : Nat) (x : Bytes) (fs : List Floor) (y : Bytes) (hh : floorsUnpack k x = .ok (fs, y)) :
+    y.length ≤ x.length := by
+  induction k generalizing x fs y with
+  | zero => simp [floorsUnpack] at hh; have := congrArg List.length hh.2; omega
+  | succ k ihk =>
+    simp only [floorsUnpack, bind, Except.bind] at hh
+    split at hh
+    · cases hh
+    · rename_i fl hfl
+      obtain ⟨f, l, r⟩ := fl
+      simp only at hh
+      split at hh
+      · cases hh
+      · rename_i res hres
+        obtain ⟨fs', y'⟩ := res
+        simp only [pure, Except.pure, Except.ok.injEq, Prod.mk.injEq] at hh
+        have := ihk _ _ _ hres
+        rw [← hh.2]
+        simp only [List.length_drop] at this; omega
+
+/-- one iteration consumes at least 14 bytes -/
+theorem towerStep_consumes (v : Bytes) (t : List Floor) (rest : Bytes) (h : towerStep v = .ok (t, rest)) :
+    rest.length + 14 ≤ v.length := by
+  unfold towerStep at h
+  split at h
+  · cases h
+  · rename_i hlen
+    simp only [bind, Except.bind] at h
+    split at h
+    · cases h
+    · rename_i fw hfw
+      obtain ⟨tower, w⟩ := fw
+      simp only [pure, Except.pure, Except.ok.injEq, Prod.mk.injEq] at h
+      have := floorsUnpack_suffix _ _ _ _ hfw
+      rw [← h.2]
+      simp only [List.length_drop] at this ⊢
+      omega
+
+/-- every tower the repaired loop decodes consumed at least 14 bytes of the reply: the number of decoded
+    towers — whatever count the reply announces, 2^64−1 included — is bounded by the reply length -/
+theorem towersUnpack_len (n : Nat) (v : Bytes) (ts : List (List Floor)) (h : towersUnpack n v = .ok ts) :
+    ts.length = n ∧ 14 * n ≤ v.length := by
+  induction n generalizing v ts with
+  | zero => simp [towersUnpack] at h; subst h; simp
+  | succ n ih =>
+    rw [towersUnpack] at h
+    split at h
+    · cases h
+    · rename_i tower rest hstep
+      split at h
+      · cases h
+      · rename_i ts' hrec
+        simp only [Except.ok.injEq] at h
+        subst h
+        have ⟨h1, h2⟩ := ih _ _ hrec
+        have := towerStep_consumes _ _ _ hstep
+        constructor
+        · simp [h1]
+        · omega
+
+/-- an announced count the data cannot hold is an error, found after at most |reply|/14 + 1 iterations:
+    the result for ANY larger announced count equals the result for that bound -/
+theorem towersUnpack_error_mono (n : Nat) (v : Bytes) (e : PyErr) (h : towersUnpack n v = .error e) :
+    towersUnpack (n + 1) v = .error e := by
+  induction n generalizing v e with
+  | zero => simp [towersUnpack] at h
+  | succ n ih =>
+    rw [towersUnpack] at h ⊢
+    split
+    · rename_i e' hstep; simp only [hstep] at h; exact h
+    · rename_i tower rest hstep
+      simp only [hstep] at h
+      cases hrec : towersUnpack n rest with
+      | ok ts' => simp [hrec] at h
+      | error e' =>
+        simp only [hrec] at h
+        rw [ih _ _ hrec]
+        exact h
+
+theorem towersUnpack_bounded (n : Nat) (v : Bytes) (hn : v.length / 14 + 1 ≤ n) :
+    towersUnpack n v = towersUnpack (v.length / 14 + 1) v := by
+  have herr : ∃ e, towersUnpack (v.length / 14 + 1) v = .error e := by
+    cases h : towersUnpack (v.length / 14 + 1) v with
+    | error e => exact ⟨e, rfl⟩
+    | ok ts => have := (towersUnpack_len _ _ _ h).2; omega
+  obtain ⟨e, he⟩ := herr
+  rw [he]
+  obtain ⟨k, rfl⟩ : ∃ k, n = v.length / 14 + 1 + k := ⟨n - (v.length / 14 + 1), by omega⟩
+  clear hn
+  induction k with
+  | zero => exact he
+  | succ k ih => exact towersUnpack_error_mono _ _ _ ih
+
+/-- the floor loop consumes input on every successful iteration as well (≥ 3 bytes are needed per floor) -/
+theorem floorsUnpack_len (k : Nat) (x : Bytes) (fs : List Floor) (y : Bytes) (h : floorsUnpack k x = .ok (fs, y)) :
+    fs.length = k ∧ (0 < k → 3 ≤ x.length) := by
+  induction k generalizing x fs y with
+  | zero => simp [floorsUnpack] at h; simp [h.1]
+  | succ k ih =>
+    simp only [floorsUnpack, bind, Except.bind] at h
+    split at h
+    · cases h
+    · rename_i fl hfl
+      obtain ⟨f, l, r⟩ := fl
+      simp only at h
+      split at h
+      · cases h
+      · rename_i res hres
+        obtain ⟨fs', y'⟩ := res
+        simp only [pure, Except.pure, Except.ok.injEq, Prod.mk.injEq] at h
+        have := ih _ _ _ hres
+        refine ⟨by rw [← h.1]; simp [this.1], fun _ => ?_⟩
+        -- `view[2]` must exist
+        unfold floorUnpack at hfl
+        simp only [bind, Except.bind] at hfl
+        cases hat : at_ x 2 with
+        | error e => simp [hat] at hfl
+        | ok p =>
+          unfold at_ Py.index at hat
+          cases hx : x[2]? with
+          | none => simp [hx] at hat
+          | some b =>
+            have := List.getElem?_eq_some_iff.mp hx
+            obtain ⟨hlt, _⟩ := this
+            omega
+
+/-- NDR64 alignment of every tower of the reply: with the padding `-(len + 4) % 8` the next tower
+    (conformance + length + bytes + padding = 12 + len + pad) starts 8-aligned, for every length -/
+theorem tower_padding_aligned (len : Nat) : (12 + len + Py.negMod (len + 4) 8) % 8 = 0 ∧ Py.negMod (len + 4) 8 < 8 := by
+  unfold Py.negMod; omega
+
+end DpapiNg.C18
